@@ -25,12 +25,14 @@ let tval_of kind hex = if kind = "s" then TStr (bytes_of_hex hex) else TTok (byt
 
 let parse_item (tok : string) : item =
   match String.split_on_char ':' tok with
-  | [id; ok; obj; dout; pos; dist; fields] ->
-      let fs = if fields = "." then [] else
+  | id :: ok :: obj :: dout :: pos :: dist :: fields :: more ->
+      let fl fields = if fields = "." then [] else
         List.map (fun f -> match String.split_on_char '=' f with
           | [n; k; v] -> (bytes_of_hex n, tval_of k v)
           | _ -> failwith "bad field") (String.split_on_char ';' fields) in
-      { it_id = bytes_of_hex id; it_obj = tval_of ok obj; it_fields = fs;
+      (* optional 8th component: the names answered through a JSON path (field.List.Get) *)
+      { it_id = bytes_of_hex id; it_obj = tval_of ok obj; it_fields = fl fields;
+        it_jpath = (match more with [jp] -> fl jp | _ -> []);
         it_distout = (dout = "1"); it_dist = bytes_of_hex dist; it_dist_pos = (pos = "1") }
   | _ -> failwith "bad item"
 
